@@ -33,7 +33,7 @@ func concMain(args []string) {
 	fixed := []string{`a.$substringBefore("z")`, `b.c.$substringAfter("z")`, `a.$substringBefore($$.b.c.$substringBefore("z"))`, `$uppercase()`, `a ~> $substringBefore("z") ~> $length()`,
 		`$pad(?, 9, "-")(a)`, `$map(c, function($v){$v.$string()})`, `$ ~> |b|{"z": $$.a}|`, `c^($)`, `$replace(a, /z/, "Z")`, `[$millis() = $millis(), $now() = $now()]`, `$string(c)`,
 		// deep recursion and long loops: whatever an evaluation counts or accumulates is its own
-		`($f := function($n){$n <= 0 ? 0 : 1 + $f($n - 1)}; $f(200))`,
+		`($f := function($n){$n <= 0 ? 0 : 1 + $f($n - 1)}; $f(400))`,
 		`($f := function($n, $acc){$n <= 0 ? $acc : $f($n - 1, $acc + $n)}; $f(150, 0))`,
 		`$reduce([1..200], function($a, $b){$a + $b})`, `$count($map([1..100], function($v){$string($v)}))`,
 		`$sum($map([1..200], function($v){$length($string($v))}))`}
